@@ -21,7 +21,9 @@ pub fn def() -> PropDef {
         profiles: &["checked", "fast"],
         abort_is_violation: false,
         rule: "complete enumeration of (combinator, input case, continuation result) for the 15 \
-               combinators with several payload triples, plus proptest-drawn payloads; a case is \
+               combinators with several payload triples in four evaluation contexts (plain or inside a \
+               destructor while the thread unwinds; i64 payloads with capturing closures or zero-sized \
+               payloads with stateless fn items counted through a thread-local), plus proptest-drawn payloads; a case is \
                non-trivial when the combinator takes a closure, so that its (non-)invocation and \
                argument are observable; distinct = distinct (combinator, \
                input, continuation, payloads)",
@@ -61,6 +63,11 @@ pub struct Case {
     pub a: i64,
     pub b: i64,
     pub c: i64,
+    /// Evaluation context. Bit 0: the combinator is evaluated inside a destructor that runs
+    /// because the thread is unwinding. Bit 1: value and error types are zero-sized and every
+    /// closure is a stateless `fn` item (observed through thread-local counters).
+    #[serde(default)]
+    pub ctx: u8,
 }
 
 #[derive(Debug, PartialEq, Eq, Clone)]
@@ -317,6 +324,170 @@ fn actual(k: &Case) -> Observed {
     }
 }
 
+// ---- zero-sized instantiation: T = E = (), closures are fn items ----
+
+thread_local! {
+    static Z_CALLS: Cell<u32> = const { Cell::new(0) };
+    static Z_CONT: Cell<u8> = const { Cell::new(1) };
+}
+
+fn z_bump() {
+    Z_CALLS.with(|c| c.set(c.get() + 1));
+}
+fn z_cont_parsed() -> Parsed<(), ()> {
+    z_bump();
+    match Z_CONT.with(|c| c.get()) {
+        0 => Parsed::Fallthrough,
+        1 => Parsed::Res(Ok(())),
+        _ => Parsed::Res(Err(())),
+    }
+}
+fn z_cont_result() -> Result<(), ()> {
+    z_bump();
+    match Z_CONT.with(|c| c.get()) {
+        1 => Ok(()),
+        _ => Err(()),
+    }
+}
+fn z_give_up() {
+    z_bump();
+}
+fn z_and_then(_: ()) -> Result<(), ()> {
+    z_cont_result()
+}
+fn z_and_also(_: &mut ()) -> Result<(), ()> {
+    z_cont_result()
+}
+fn z_and_do(_: &mut ()) {
+    z_bump();
+}
+fn z_map(_: ()) {
+    z_bump();
+}
+
+#[derive(Debug, PartialEq, Eq, Clone, Copy)]
+struct E3;
+impl From<()> for E3 {
+    fn from(_: ()) -> Self {
+        E3
+    }
+}
+
+fn z_parsed_in(k: &Case) -> Parsed<(), ()> {
+    match k.input {
+        0 => Parsed::Fallthrough,
+        1 => Parsed::Res(Ok(())),
+        _ => Parsed::Res(Err(())),
+    }
+}
+
+fn z_out_parsed(p: Parsed<(), ()>) -> Out {
+    match p {
+        Parsed::Fallthrough => Out::Fall,
+        Parsed::Res(Ok(())) => Out::Ok(0),
+        Parsed::Res(Err(())) => Out::Err(0),
+    }
+}
+
+fn z_out_result(r: Result<(), ()>) -> Out {
+    match r {
+        Ok(()) => Out::Ok(0),
+        Err(()) => Out::Err(0),
+    }
+}
+
+/// The real combinators on zero-sized values with stateless actions.
+fn actual_zst(k: &Case) -> Observed {
+    Z_CALLS.with(|c| c.set(0));
+    Z_CONT.with(|c| c.set(k.cont));
+    let z_result_in = || -> Result<(), ()> {
+        match k.input {
+            1 => Ok(()),
+            _ => Err(()),
+        }
+    };
+    let out = match COMBINATORS[k.comb] {
+        "or_parse" => z_out_parsed(z_parsed_in(k).or_parse(z_cont_parsed)),
+        "or_always_parse" => z_out_result(z_parsed_in(k).or_always_parse(z_cont_result)),
+        "or_give_up" => z_out_result(z_parsed_in(k).or_give_up(z_give_up)),
+        "optional" => match z_parsed_in(k).optional() {
+            Ok(None) => Out::OkNone,
+            Ok(Some(())) => Out::OkSome(0),
+            Err(()) => Out::Err(0),
+        },
+        "matches" => match z_parsed_in(k).matches() {
+            Ok(m) => Out::OkBool(m),
+            Err(()) => Out::Err(0),
+        },
+        "and_then" => z_out_parsed(z_parsed_in(k).and_then(z_and_then)),
+        "and_also" => z_out_parsed(z_parsed_in(k).and_also(z_and_also)),
+        "and_do" => z_out_parsed(z_parsed_in(k).and_do(z_and_do)),
+        "map" => z_out_parsed(z_parsed_in(k).map(z_map)),
+        "map_err" => z_out_parsed(z_parsed_in(k).map_err(z_map)),
+        "err_into" => match z_parsed_in(k).err_into::<E3>() {
+            Parsed::Fallthrough => Out::Fall,
+            Parsed::Res(Ok(())) => Out::Ok(0),
+            Parsed::Res(Err(E3)) => Out::Err2(0),
+        },
+        "from_result" => z_out_parsed(Parsed::from(z_result_in())),
+        "result_err_into" => match ResultExt::err_into::<E3>(z_result_in()) {
+            Ok(()) => Out::Ok(0),
+            Err(E3) => Out::Err2(0),
+        },
+        "result_and_also" => z_out_result(ResultExt::and_also(z_result_in(), z_and_also)),
+        "result_and_do" => z_out_result(ResultExt::and_do(z_result_in(), z_and_do)),
+        _ => unreachable!(),
+    };
+    Observed {
+        out,
+        calls: Z_CALLS.with(|c| c.get()),
+        arg: None,
+    }
+}
+
+/// The documented outcome with the payloads erased (what the zero-sized instantiation can show).
+fn erase(o: Observed) -> Observed {
+    let out = match o.out {
+        Out::Ok(_) => Out::Ok(0),
+        Out::Err(_) => Out::Err(0),
+        Out::OkSome(_) => Out::OkSome(0),
+        Out::Err2(_) => Out::Err2(0),
+        other => other,
+    };
+    Observed {
+        out,
+        calls: o.calls,
+        arg: None,
+    }
+}
+
+struct UnrelatedPanic;
+
+/// Runs `f` inside a destructor while the thread unwinds from an unrelated panic
+/// (`std::thread::panicking()` is true for the duration of `f`).
+fn while_unwinding<R>(f: impl FnOnce() -> R) -> Result<R, String> {
+    struct Guard<F: FnOnce()>(Option<F>);
+    impl<F: FnOnce()> Drop for Guard<F> {
+        fn drop(&mut self) {
+            if let Some(f) = self.0.take() {
+                f()
+            }
+        }
+    }
+    let mut slot: Option<std::thread::Result<R>> = None;
+    let r = std::panic::catch_unwind(std::panic::AssertUnwindSafe(|| {
+        let _g = Guard(Some(|| {
+            slot = Some(std::panic::catch_unwind(std::panic::AssertUnwindSafe(f)));
+        }));
+        std::panic::resume_unwind(Box::new(UnrelatedPanic));
+    }));
+    match (r, slot) {
+        (Err(p), Some(Ok(v))) if p.is::<UnrelatedPanic>() => Ok(v),
+        (_, Some(Err(p))) => Err(format!("panicked: {}", crate::engine::panic_message(&p))),
+        _ => Err("the destructor did not run".into()),
+    }
+}
+
 pub fn check(k: &Case, obs: &mut Obs) -> CheckResult {
     if k.comb >= COMBINATORS.len()
         || !valid_inputs(k.comb).contains(&k.input)
@@ -330,9 +501,33 @@ pub fn check(k: &Case, obs: &mut Obs) -> CheckResult {
     if takes_closure(k.comb) {
         obs.nontrivial();
     }
-    let want = expected(k);
-    let got = actual(k);
-    let sig = format!("C15:{name}:in{}:cont{}", k.input, k.cont);
+    let zst = k.ctx & 2 != 0;
+    let unwinding = k.ctx & 1 != 0;
+    obs.class(format!(
+        "context/{}{}",
+        if zst { "zero-sized-values+fn-items" } else { "i64-values+capturing-closures" },
+        if unwinding { "+in-destructor-while-unwinding" } else { "" }
+    ));
+    let want = if zst { erase(expected(k)) } else { expected(k) };
+    let eval = || if zst { actual_zst(k) } else { actual(k) };
+    let got = if unwinding {
+        match while_unwinding(eval) {
+            Ok(g) => g,
+            Err(e) => fail!(
+                format!("C15:{name}:in{}:cont{}:unwinding", k.input, k.cont),
+                "{name} evaluated in a destructor during unwinding: {e}"
+            ),
+        }
+    } else {
+        eval()
+    };
+    let sig = format!(
+        "C15:{name}:in{}:cont{}{}{}",
+        k.input,
+        k.cont,
+        if zst { ":zst" } else { "" },
+        if unwinding { ":unwinding" } else { "" }
+    );
     ensure!(
         got.calls == want.calls,
         sig,
@@ -372,24 +567,27 @@ fn run(ctx: &Ctx) {
             for &input in valid_inputs(comb) {
                 for &cont in valid_conts(comb) {
                     for &(a, b, c) in &payloads {
-                        let k = Case {
-                            comb,
-                            input,
-                            cont,
-                            a,
-                            b,
-                            c,
-                        };
-                        ctx.run_one("enumerate", &k, check);
-                        n += 1;
+                        for cx in 0..4u8 {
+                            let k = Case {
+                                comb,
+                                input,
+                                cont,
+                                a,
+                                b,
+                                c,
+                                ctx: cx,
+                            };
+                            ctx.run_one("enumerate", &k, check);
+                            n += 1;
+                        }
                     }
                 }
             }
         }
         ctx.count("enumerate/combinations", n);
         ctx.exhaustive_part(format!(
-            "all {} (combinator, input, continuation) combinations x 3 payload triples",
-            n / 3
+            "all {} (combinator, input, continuation) combinations x 3 payload triples x 4 evaluation contexts (plain / inside a destructor during unwinding, i64 payloads with capturing closures / zero-sized payloads with fn items)",
+            n / 12
         ));
     }
     // Payload values drawn by proptest over the same finite skeleton.
@@ -400,8 +598,9 @@ fn run(ctx: &Ctx) {
         any::<i64>(),
         any::<i64>(),
         any::<i64>(),
+        prop_oneof![12 => Just(0u8), 1 => Just(1u8), 1 => Just(2u8), 1 => Just(3u8)],
     )
-        .prop_map(|(comb, input, cont, a, b, c)| {
+        .prop_map(|(comb, input, cont, a, b, c, cx)| {
             let vi = valid_inputs(comb);
             let vc = valid_conts(comb);
             Case {
@@ -411,6 +610,7 @@ fn run(ctx: &Ctx) {
                 a,
                 b,
                 c,
+                ctx: cx,
             }
         });
     let cases = ctx.share(ctx.tier.pick(640_000, 64_000_000));
